@@ -65,6 +65,29 @@ static inline InfoMapIt InfoMap_find(InfoMap *m, struct IndexInfo *key)        /
   else it.p = (InfoPair *)0;
   return it;
 }
+/* std::map::lower_bound(key): iterator to the FIRST element whose key is not less than `key` (w.r.t. the extracted comparator),
+ * end() when every key is less.  In the ghost-key model the result is
+ *   - the ghost element when it is present and equivalent to `key` (a map holds at most one element per equivalence class);
+ *   - otherwise either some other element e (arbitrary content, ASSUMED: !(e < key) -- the definition of lower_bound; e is not
+ *     equivalent to the ghost key -- `other` elements never are; e < ghost element when the ghost element is present and not
+ *     less than key -- the FIRST such element), or the ghost element when it is present and not less than key, or end() when
+ *     the ghost element is absent / less than key (end() is impossible while a present ghost element is not less than key). */
+static inline InfoMapIt InfoMap_lower_bound(InfoMap *m, struct IndexInfo *key)
+{
+  InfoMapIt it;
+  if (m->gpresent && INFO_EQUIV(key, &m->g.first)) { it.p = &m->g; return it; }
+  _Bool g_ge = m->gpresent && !IndexInfo_lt(&m->g.first, key);
+  if (nondet_bool()) {
+    m->other.first = nondet_IndexInfo(); m->other.second = nondet_uint();
+    __CPROVER_assume(!IndexInfo_lt(&m->other.first, key));
+    __CPROVER_assume(!INFO_EQUIV(&m->other.first, &m->g.first));
+    __CPROVER_assume(!g_ge || IndexInfo_lt(&m->other.first, &m->g.first));
+    it.p = &m->other;
+  }
+  else if (g_ge) it.p = &m->g;
+  else it.p = (InfoPair *)0;
+  return it;
+}
 #define InfoMap_end(m) ((InfoMapIt){ (InfoPair *)0 })
 #define op_ne_InfoMapIt_InfoMapIt(a, b) ((a)->p != (b)->p)
 #define InfoMapIt_mul(it) ({ __CPROVER_assert((it)->p != (InfoPair *)0, "std::map iterator dereferenced only before end()"); (it)->p; })
